@@ -1,6 +1,12 @@
 package main
 
 import (
+	"time"
+
+	gogit "github.com/go-git/go-git/v5"
+	"github.com/go-git/go-git/v5/plumbing"
+	"github.com/go-git/go-git/v5/plumbing/object"
+
 	"encoding/base64"
 	"encoding/json"
 	"fmt"
@@ -18,16 +24,16 @@ import (
 func init() { props["C09"] = runC09 }
 
 type versionJ struct {
-	Commit     string  `json:"commit"`
-	Times      [][]any `json:"times"`
-	NameEmpty  bool    `json:"nameEmpty"`
-	LoginEmpty bool    `json:"loginEmpty"`
-	NameSafe   bool    `json:"nameSafe"`
-	LoginSafe  bool    `json:"loginSafe"`
-	EmailSafe  bool    `json:"emailSafe"`
-	AvatarOk   bool    `json:"avatarOk"`
-	NonceLen   int     `json:"nonceLen"`
-	KeysOk     bool    `json:"keysOk"`
+	Commit     string   `json:"commit"`
+	Times      [][]any  `json:"times"`
+	NameEmpty  bool     `json:"nameEmpty"`
+	LoginEmpty bool     `json:"loginEmpty"`
+	NameSafe   bool     `json:"nameSafe"`
+	LoginSafe  bool     `json:"loginSafe"`
+	EmailSafe  bool     `json:"emailSafe"`
+	AvatarOk   bool     `json:"avatarOk"`
+	NonceLen   int      `json:"nonceLen"`
+	KeysOk     bool     `json:"keysOk"`
 	Keys       []string `json:"keys"`
 }
 
@@ -166,6 +172,104 @@ func runC09(c *runCtx) {
 	c09Validate(c)
 	c09Merge(c)
 	c09Real(c)
+	c09Foreign(c, "C09")
+}
+
+// recommit writes, with go-git directly, commits carrying the given trees under another author
+// signature: the same version blobs in commits that are not the local ones.
+func recommit(dir string, trees []repository.Hash, parent repository.Hash, who string) []repository.Hash {
+	gr, err := gogit.PlainOpen(dir)
+	if err != nil {
+		panic(err)
+	}
+	var out []repository.Hash
+	for i, t := range trees {
+		cm := &object.Commit{
+			Author:    object.Signature{Name: who, Email: who + "@example.com", When: time.Unix(int64(1500000000+i), 0)},
+			Committer: object.Signature{Name: who, Email: who + "@example.com", When: time.Unix(int64(1500000000+i), 0)},
+			TreeHash:  plumbing.NewHash(string(t)),
+		}
+		if parent != "" {
+			cm.ParentHashes = []plumbing.Hash{plumbing.NewHash(string(parent))}
+		}
+		obj := gr.Storer.NewEncodedObject()
+		if err := cm.Encode(obj); err != nil {
+			panic(err)
+		}
+		h, err := gr.Storer.SetEncodedObject(obj)
+		if err != nil {
+			panic(err)
+		}
+		parent = repository.Hash(h.String())
+		out = append(out, parent)
+	}
+	return out
+}
+
+// c09Foreign: a remote serves, under the id of a local identity, a chain that repeats the local
+// version blobs in other commits (no commit in common) and may add versions of its own.
+func c09Foreign(c *runCtx, prop string) {
+	for rep := 0; rep < c.pick(2, 10); rep++ {
+		for p := 1; p <= 3; p++ {
+			for q := 1; q <= p; q++ { // how many of the local versions the foreign chain repeats
+				for b := 0; b <= 2; b++ {
+					r := c.rng.fork()
+					repo, dir := newGoGit("c09f", false)
+					var vs []rawVersion
+					prev := map[string]uint64{"bugs-edit": 1}
+					for k := 0; k < p+b; k++ {
+						v := randRawVersion(r, prev, "ok")
+						v.Name, v.Login, v.Email, v.Avatar = "valid", "", "a@b.c", ""
+						v.Nonce = "QUJDREVGR0hJSktMTU5PUFFSU1RVVg=="
+						prev = v.Times
+						vs = append(vs, v)
+					}
+					lh, id := writeIdentityChain(repo, vs[:p], "")
+					// trees of the local versions, and of b further ones
+					var trees []repository.Hash
+					for _, h := range lh[:q] {
+						cm, _ := repo.ReadCommit(h)
+						trees = append(trees, cm.TreeHash)
+					}
+					scratchChain, _ := writeIdentityChain(repo, vs[p:], lh[p-1])
+					for _, h := range scratchChain {
+						cm, _ := repo.ReadCommit(h)
+						trees = append(trees, cm.TreeHash)
+					}
+					fh := recommit(dir, trees, "", "foreign")
+					localRef, remoteRef := "refs/identities/"+string(id), "refs/remotes/origin/identities/"+string(id)
+					repo.UpdateRef(localRef, lh[p-1])
+					repo.UpdateRef(remoteRef, fh[len(fh)-1])
+					local, _ := chainFlags(repo, localRef)
+					remote, _ := chainFlags(repo, remoteRef)
+					c.context(fmt.Sprintf("foreign identity chain p=%d q=%d b=%d", p, q, b))
+					status := ""
+					for res := range identity.MergeAll(repo, "origin") {
+						if string(res.Id) == string(id) {
+							status = mergeStatusName(res.Status)
+						}
+					}
+					after, _ := chainFlags(repo, localRef)
+					head, _ := repo.ResolveRef(localRef)
+					res := map[string]string{"updated": "updated", "nothing": "nothing", "invalid": "nonFF"}[status]
+					ref := ""
+					if res == "updated" {
+						ref = string(head)
+					}
+					cid := -1
+					if prop == "C09" { // the identity merge model is behind the C09 driver
+						cid = c.emit(map[string]any{"cmd": "merge", "local": local, "remote": remote, "pab": []int{0, p, q + b}, "via": "foreign"},
+							map[string]any{"res": res, "chain": commitsOf(after), "ref": ref})
+					}
+					c.count("foreign=" + status)
+					c.nontrivial(fmt.Sprintf("foreign/%d/%d/%d", p, q, b))
+					if status != "invalid" || head != lh[p-1] || mustJSON(commitsOf(after)) != mustJSON(commitsOf(local)) {
+						c.violation(cid, prop+"/foreign-identity-chain", fmt.Sprintf("a remote identity chain sharing no commit with the local one (p=%d, repeats %d version blobs, %d own versions) was reported %q; local ref moved: %v", p, q, b, status, head != lh[p-1]), nil)
+					}
+				}
+			}
+		}
+	}
 }
 
 // c09Validate: crafted version chains (all field classes, clock histories) read back through
